@@ -9,6 +9,7 @@
 // [begin, end) of its enclosing block (DWARF 2.17), or no enclosing block is known.
 use super::*;
 
+use gimli::Range;
 struct VarRec { rs: Option<Vec<Range>> }
 impl VarRec {
     fn ranges(&self) -> Option<Box<[Range]>> {
